@@ -176,6 +176,37 @@ Proof.
     destruct (Z.max count 0 <=? Z.of_nat (length (expand t))) eqn:Hle; [lia|assumption].
 Qed.
 
+
+(* ---- prepLocals: prologue bytes credited to the first run ---- *)
+Lemma expand_single : forall e, expand [e] = run_of e.
+Proof. intros e. rewrite expand_cons. reflexivity. Qed.
+
+Lemma prologue_cons2 : forall e e2 r n, prologue (e :: e2 :: r) n = e :: prologue (e2 :: r) n.
+Proof. reflexivity. Qed.
+
+Lemma prologue_ok : forall t n,
+  pos_counts t -> 0 <= n ->
+  pos_counts (prologue t n) /\
+  expand (prologue t n) =
+    match expand t with [] => [] | x :: _ => repeat x (Z.to_nat n) ++ expand t end.
+Proof.
+  induction t as [|e r IH]; intros n Hp Hn.
+  - split; [constructor|reflexivity].
+  - inversion Hp as [|? ? He Hr]; subst.
+    destruct r as [|e2 r'].
+    + cbn [prologue]. split; [constructor; [cbn; lia|constructor]|].
+      rewrite !expand_single. unfold run_of. cbn [li_line li_count].
+      destruct (Z.to_nat (li_count e)) as [|c] eqn:Hc; [lia|].
+      cbn [repeat]. change (li_line e :: repeat (li_line e) c) with (repeat (li_line e) (S c)).
+      rewrite <- repeat_app. f_equal. lia.
+    + rewrite prologue_cons2. destruct (IH n Hr Hn) as [Hp' Hex'].
+      split; [constructor; assumption|].
+      rewrite (expand_cons e (prologue (e2 :: r') n)), (expand_cons e (e2 :: r')), Hex'.
+      destruct (expand_nonempty e2 r' Hr) as [Hne _].
+      destruct (expand (e2 :: r')) as [|x xs]; [congruence|].
+      cbn [app]. rewrite <- app_assoc. reflexivity.
+Qed.
+
 (* ---- one operation, then any sequence ---- *)
 Definition related (a : outcome table) (b : outcome plain) : Prop :=
   match a, b with
@@ -187,10 +218,12 @@ Definition related (a : outcome table) (b : outcome plain) : Prop :=
 Lemma apply_op_related : forall t o,
   pos_counts t -> wf_op o -> related (apply_op t o) (spec_apply (expand t) o).
 Proof.
-  intros t o Hp Hwf. destruct o as [line bytes|bytes|count]; cbn [wf_op] in Hwf.
+  intros t o Hp Hwf. destruct o as [line bytes|bytes|count|bytes]; cbn [wf_op] in Hwf.
   - cbn [apply_op spec_apply related]. apply add_line_number_ok; assumption.
   - cbn [apply_op]. apply add_bytes_ok; assumption.
   - cbn [apply_op]. apply remove_bytes_ok; assumption.
+  - cbn [apply_op spec_apply]. destruct (prologue_ok t bytes Hp Hwf) as [Hp' Hex'].
+    destruct (expand t) as [|x xs]; cbn [related]; split; assumption.
 Qed.
 
 Lemma step_related : forall a b o,
@@ -305,4 +338,48 @@ Proof.
   intros ops Hwf c. pose proof (run_related ops Hwf) as Hr. unfold related in Hr.
   destruct (run_impl ops) as [t|x|x|x], (run_spec ops) as [ls|d|d|d]; try contradiction;
     split; intro H; try discriminate H; inversion H; subst; reflexivity.
+Qed.
+
+Lemma prologue_shift : forall t n,
+  pos_counts t -> 0 <= n ->
+  (forall i, 0 <= i -> get_line_number (prologue t n) (i + n) = get_line_number t i) /\
+  (forall j, j < n -> get_line_number (prologue t n) j = get_line_number t 0) /\
+  (t <> [] -> total_bytes (prologue t n) = total_bytes t + n).
+Proof.
+  intros t n Hp Hn. destruct (prologue_ok t n Hp Hn) as [Hp' Hex'].
+  split; [|split].
+  - intros i Hi. rewrite !lookup_nonneg by (assumption || lia). rewrite Hex'.
+    destruct (expand t) as [|x xs]; [destruct (Z.to_nat (i + n)), (Z.to_nat i); reflexivity|].
+    rewrite app_nth2 by (rewrite repeat_length; lia). rewrite repeat_length. f_equal. lia.
+  - intros j Hj. rewrite (lookup_nonneg t 0) by (assumption || lia).
+    destruct (Z.ltb_spec j 0) as [Hneg|Hpos].
+    + rewrite lookup_neg by assumption. rewrite Hex'.
+      destruct (expand t) as [|x xs]; [reflexivity|].
+      destruct (Z.to_nat n) as [|k]; reflexivity.
+    + rewrite lookup_nonneg by assumption. rewrite Hex'.
+      destruct (expand t) as [|x xs]; [destruct (Z.to_nat j); reflexivity|].
+      rewrite app_nth1 by (rewrite repeat_length; lia).
+      rewrite nth_repeat_lt by lia. reflexivity.
+  - intros Hne. rewrite !total_bytes_length by assumption. rewrite Hex'.
+    destruct t as [|e r]; [congruence|].
+    destruct (expand_nonempty e r Hp) as [Hne' _].
+    destruct (expand (e :: r)) as [|x xs]; [congruence|].
+    rewrite app_length, repeat_length. lia.
+Qed.
+
+
+(* tables built by any admissible operation sequence satisfy the invariant *)
+Lemma run_impl_pos : forall ops t, Forall wf_op ops -> run_impl ops = Ok t -> pos_counts t.
+Proof.
+  intros ops t Hwf Hi. pose proof (run_related ops Hwf) as Hr. rewrite Hi in Hr.
+  unfold related in Hr. destruct (run_spec ops); try contradiction. apply Hr.
+Qed.
+
+Lemma run_prologue_shift : forall ops t n,
+  Forall wf_op ops -> run_impl ops = Ok t -> 0 <= n ->
+  (forall i, 0 <= i -> get_line_number (prologue t n) (i + n) = get_line_number t i) /\
+  (forall j, j < n -> get_line_number (prologue t n) j = get_line_number t 0) /\
+  (t <> [] -> total_bytes (prologue t n) = total_bytes t + n).
+Proof.
+  intros ops t n Hwf Hi Hn. apply prologue_shift; [eapply run_impl_pos; eassumption|assumption].
 Qed.
